@@ -89,10 +89,16 @@ func bundleSweep(w *gen.World, c *refClosure, b *sourcebundle.Bundle, root strin
 	}
 	// reverse lookups of every path in the directory
 	var rev []string
-	filepath.Walk(root, func(p string, info os.FileInfo, err error) error {
-		if err != nil || p == root {
+	realRoot, rerr := filepath.EvalSymlinks(root)
+	if rerr != nil {
+		realRoot = root
+	}
+	filepath.Walk(realRoot, func(rp string, info os.FileInfo, err error) error {
+		if err != nil || rp == realRoot {
 			return nil
 		}
+		tail, _ := filepath.Rel(realRoot, rp)
+		p := filepath.Join(root, tail) // the path as spelled below the root the bundle was opened with
 		src, err := b.SourceForLocalPath(p)
 		s := "<error>"
 		if err == nil {
@@ -146,6 +152,12 @@ func c09Extras(r *fw.Rand, i int) []gen.NodeSpec {
 		ex = append(ex, gen.NodeSpec{Path: "readonly/nested/g.tf", Kind: "file", Mode: 0400, Content: "g", Mtime: 1400000011})
 		ex = append(ex, gen.NodeSpec{Path: "group-writable", Kind: "dir", Mode: 0775, Mtime: 1500000012})
 		ex = append(ex, gen.NodeSpec{Path: "group-writable/w.tf", Kind: "file", Mode: 0664, Content: "w", Mtime: 1400000012})
+	}
+	if r.Chance(1, 3) {
+		// the package's own rule file re-includes .git: the builder keeps it, so the archive must too
+		ex = append(ex, gen.NodeSpec{Path: ".terraformignore", Kind: "file", Mode: 0644, Content: "!.git/\n!.terraform/\n", Mtime: 1400000020})
+		ex = append(ex, gen.NodeSpec{Path: ".git/HEAD", Kind: "file", Mode: 0644, Content: "ref: refs/heads/main\n", Mtime: 1400000021})
+		ex = append(ex, gen.NodeSpec{Path: ".terraform/terraform.tfstate", Kind: "file", Mode: 0600, Content: "{}", Mtime: 1400000022})
 	}
 	if r.Chance(1, 3) {
 		ex = append(ex, gen.NodeSpec{Path: ".terraform/modules/m/main.tf", Kind: "file", Mode: 0644, Content: "vendored", Mtime: 1400000003})
@@ -208,6 +220,38 @@ func c09Run(env *fw.Env, idx int) fw.Result {
 	if d := firstDiff(s0, bundleSweep(&w, c, b1, dir)); d != "" {
 		res.Verdict, res.Finding, res.Msg = fw.Violated, "reopen-differs", "the re-opened bundle differs from the one Close returned: "+d
 		return res
+	}
+	// the same directory named relatively and through a symlink alias
+	{
+		cwd, _ := os.Getwd()
+		os.Chdir(filepath.Dir(dir))
+		bRel, err := sourcebundle.OpenDir(filepath.Base(dir))
+		if err == nil {
+			if d := firstDiff(s0, bundleSweep(&w, c, bRel, filepath.Base(dir))); d != "" {
+				os.Chdir(cwd)
+				res.Verdict, res.Finding, res.Msg = fw.Violated, "reopen-relative-differs", "the bundle re-opened by a relative directory name differs from the one Close returned: "+d
+				return res
+			}
+		}
+		os.Chdir(cwd)
+		if err != nil {
+			res.Verdict, res.Finding, res.Msg = fw.Violated, "reopen-failed", "OpenDir by relative name failed: "+err.Error()
+			return res
+		}
+		alias := filepath.Join(filepath.Dir(dir), "alias-link")
+		os.Remove(alias)
+		if os.Symlink(filepath.Base(dir), alias) == nil {
+			bAl, err := sourcebundle.OpenDir(alias)
+			if err != nil {
+				res.Verdict, res.Finding, res.Msg = fw.Violated, "reopen-failed", "OpenDir through a symlink to the directory failed: "+err.Error()
+				return res
+			}
+			if d := firstDiff(s0, bundleSweep(&w, c, bAl, alias)); d != "" {
+				res.Verdict, res.Finding, res.Msg = fw.Violated, "reopen-alias-differs", "the bundle re-opened through a symlink to its directory differs (relative to the root it was opened with): "+d
+				return res
+			}
+			os.Remove(alias)
+		}
 	}
 	var buf bytes.Buffer
 	var werr error
